@@ -155,10 +155,15 @@ def run_batch(kernel, args, cloudf, scheduler, workers, chunksize, ps, chooser):
 
 
 def sequential(kernel, args, cloudf):
+    """the reference: one event at a time. `kernel` / `cloudf` may be factories (real kernel, real cloud models): then
+    EVERY event is evaluated by a fresh kernel object with a fresh cloud object, so that nothing an earlier event left
+    behind can reach a later one (the batch call, which shares one object, is compared with this)."""
     out = []
     with np.errstate(all="ignore"):
         for x in zip(*args):
-            out.append(kernel.run(*x, cloudf))
+            k = kernel() if isinstance(kernel, type(sequential)) else kernel
+            c = cloud(cloudf) if isinstance(cloudf, str) else cloudf
+            out.append(k.run(*x, c))
     d, c = zip(*out)
     return digest((np.asarray(d), np.array(c)))
 
@@ -193,13 +198,18 @@ def explore_config(make_kernel, args, cloudf, sch, w, cs, ps, expect, expect_rai
 # ---- real-kernel batches -----------------------------------------------------------------------
 
 def real_events():
-    """partitions differ in energy decade, decay altitude and cloud site"""
-    b = np.array([math.radians(x) for x in (5.0, 20.0, 1.0, 35.0, 10.0)])
-    a = np.array([2.0, 8.0, 0.5, 4.0, 12.0])
-    E = np.array([0.003, 2.0, 40.0, 0.2, 700.0])
-    la = np.array([0.1, -0.9, 0.5, 1.2, -0.3])
-    lo = np.array([0.2, 2.5, -1.0, 0.7, -2.8])
+    """partitions differ in energy decade, decay altitude and cloud site; events 1, 2 and 6 share one track geometry (same
+    number of steps, same intermediate array shapes) with ascending energy: within one partition (partition size 3) and
+    across partitions (partition sizes 1, 2)"""
+    b = np.array([math.radians(x) for x in (5.0, 20.0, 20.0, 1.0, 35.0, 10.0, 20.0)])
+    a = np.array([2.0, 2.0, 2.0, 0.5, 4.0, 12.0, 2.0])
+    E = np.array([0.003, 1.0, 10.0, 40.0, 0.2, 700.0, 300.0])
+    la = np.array([0.1, -0.9, -0.9, 0.5, 1.2, -0.3, 0.4])
+    lo = np.array([0.2, 2.5, 2.5, -1.0, 0.7, -2.8, 1.9])
     return b, a, E, la, lo
+
+
+NREAL = 7
 
 
 def cloud(kind):
@@ -239,15 +249,14 @@ PAIRS = [
     ((math.radians(5.0), 2.0, 0.003, 0.1, 0.2), (math.radians(20.0), 8.0, 40.0, -0.9, 2.5)),
     ((math.radians(1.0), 0.5, 700.0, 0.5, -1.0), (math.radians(35.0), 12.0, 0.2, 1.2, 0.7)),
     ((math.radians(10.0), 4.0, 2.0, -0.3, -2.8), (math.radians(10.0), 4.0, 2.0, -0.3, -2.8)),
+    ((math.radians(20.0), 2.0, 1.0, 0.1, 0.2), (math.radians(20.0), 2.0, 10.0, 0.1, 0.2)),  # same track, ascending energy
 ]
 
 
 def interleave(pair, cloud_kind, bound, make=real_kernel, cap=None):
     ev = PAIRS[pair]
-    cl = cloud(cloud_kind)
-    k0 = make()
-    with np.errstate(all="ignore"):
-        exp = tuple(digest(tuple(np.asarray(v) for v in k0.run(*e, cl))) for e in ev)
+    with np.errstate(all="ignore"):  # one at a time: a fresh kernel and a fresh cloud object per event
+        exp = tuple(digest(tuple(np.asarray(v) for v in real_kernel().run(*e, cloud(cloud_kind)))) for e in ev)
 
     def make_bodies():
         k = make()
@@ -314,11 +323,10 @@ def _real_job(a):
         _, pos, ft = ck.split(":")
         cl = SiteCloud(fail_lat=float(args[3][int(pos)]), fault=int(ft))
         nex, outcomes, bad, capped = explore_config(real_kernel, args, cl, sch, w, cs, ps, None, expect_raise=True, cap=cap)
-        return dict(ck=ck, ps=ps, sch=sch, w=w, cs=cs, nex=nex, outcomes=len(outcomes), bad=bad[:3], capped=capped, exp="the batch call raises", nparts=math.ceil(5 / ps))
-    cl = cloud(ck)
-    exp = sequential(real_kernel(), args, cl)
-    nex, outcomes, bad, capped = explore_config(real_kernel, args, cl, sch, w, cs, ps, exp, cap=cap)
-    return dict(ck=ck, ps=ps, sch=sch, w=w, cs=cs, nex=nex, outcomes=len(outcomes), bad=bad[:3], capped=capped, exp=exp, nparts=math.ceil(5 / ps))
+        return dict(ck=ck, ps=ps, sch=sch, w=w, cs=cs, nex=nex, outcomes=len(outcomes), bad=bad[:3], capped=capped, exp="the batch call raises", nparts=math.ceil(NREAL / ps))
+    exp = sequential(real_kernel, args, ck)
+    nex, outcomes, bad, capped = explore_config(real_kernel, args, cloud(ck), sch, w, cs, ps, exp, cap=cap)
+    return dict(ck=ck, ps=ps, sch=sch, w=w, cs=cs, nex=nex, outcomes=len(outcomes), bad=bad[:3], capped=capped, exp=exp, nparts=math.ceil(NREAL / ps))
 
 
 def run(ctx):
@@ -374,10 +382,12 @@ def run(ctx):
     # ---- E3a with the REAL kernel: partitions differ in energy decade and cloud site
     jobs = []
     for ck in ("none", "mono", "map"):
-        for ps in ((2,) if tier == "quick" else (1, 2)):
+        for ps in ((3, 2) if tier == "quick" else (3, 2, 1)):
             for sch, w, cs in [("synchronous", 1, 1), ("threads", 2, 1), ("processes", 2, 1), ("threads", 3, 1), ("processes", 3, 1)]:
-                jobs.append((ck, ps, sch, w, cs, 400 if tier == "quick" else 3000))
-    for pos in range(5):
+                if tier == "quick" and ps == 2 and w == 3:
+                    continue  # (4 partitions x 3 workers: 846 completion orders; thorough tier)
+                jobs.append((ck, ps, sch, w, cs, 1000 if tier == "quick" else 3000))
+    for pos in range(NREAL):
         for ft in range(len(FAULT_TYPES)):
             for sch, w in (("synchronous", 1), ("threads", 2)):
                 jobs.append((f"fault:{pos}:{ft}", 2, sch, w, 1, 100))
@@ -387,7 +397,7 @@ def run(ctx):
         nr += r["nex"]
         states += r["nex"]
         trans += r["nex"] * r["nparts"]
-        ctx.tick(r["nex"] * 5, ("real", r["ck"], r["ps"], r["sch"], r["w"], r["outcomes"]))
+        ctx.tick(r["nex"] * NREAL, ("real", r["ck"], r["ps"], r["sch"], r["w"], r["outcomes"]))
         if r["capped"]:
             ctx.cap(f"real kernel {r['ck']} ps={r['ps']} {r['sch']} w={r['w']}: stopped after {r['nex']} executions")
         for choices, o in r["bad"]:
@@ -414,8 +424,8 @@ def run(ctx):
             o = digest(r)
         except BaseException as ex:
             o = f"raised {type(ex).__name__}: {ex}"
-        exp = sequential(real_kernel(), args, cloud("map"))
-        ctx.tick(5, ("uncontrolled", sch))
+        exp = sequential(real_kernel, args, "map")
+        ctx.tick(NREAL, ("uncontrolled", sch))
         ctx.traces += 1
         if o != exp:
             ctx.violation("batch_equals_one_at_a_time", {"kind": "uncontrolled", "sch": sch}, exp, o)
@@ -474,7 +484,7 @@ def replay(case):
             o = run_batch(real_kernel(), args, cl, case["sch"], case["w"], case["cs"], case["ps"], ch)
             return [] if o.startswith("raised") else [("failure_surfaces_as_error", "the batch call raises", o)]
         cl = cloud(case["cloud"])
-        exp = sequential(real_kernel(), args, cl)
+        exp = sequential(real_kernel, args, case["cloud"])
         ch = schedule.Chooser(case["choices"])
         o = run_batch(real_kernel(), args, cl, case["sch"], case["w"], case["cs"], case["ps"], ch)
         return [] if o == exp else [("batch_equals_one_at_a_time", exp, o)]
@@ -484,14 +494,12 @@ def replay(case):
         args = real_events()
         with dask.config.set(scheduler=case["sch"], num_workers=3), np.errstate(all="ignore"), own.quiet():
             o = digest(real_kernel()(*args, cloud("map")))
-        exp = sequential(real_kernel(), args, cloud("map"))
+        exp = sequential(real_kernel, args, "map")
         return [] if o == exp else [("batch_equals_one_at_a_time", exp, o)]
     if k == "il":
         ev = PAIRS[case["pair"]]
-        cl = cloud(case["cloud"])
-        k0 = real_kernel()
         with np.errstate(all="ignore"):
-            exp = tuple(digest(tuple(np.asarray(v) for v in k0.run(*e, cl))) for e in ev)
+            exp = tuple(digest(tuple(np.asarray(v) for v in real_kernel().run(*e, cloud(case["cloud"])))) for e in ev)
 
         def make_bodies():
             kk = real_kernel()
